@@ -23,7 +23,7 @@ from fractions import Fraction as F
 import itertools
 
 from ..loader import AnalysisError
-from ..pe import ConfigRejected, Tensor
+from ..pe import ConfigRejected, Tensor, PyRaise
 from .. import quant, oracle
 from ..qir import Fwd, Eval, Env, value_set, mk_app, equal_mod_finite
 from ..nf import NF, show
@@ -409,6 +409,27 @@ def rule_late_data_format(rep, repo, configs, rule):
                 "before the import %s" % (cfg, show(late.fwd(), 160),
                                           show(early.fwd(), 160)),
                 loc=late.pe.loc_of(late.term), instance=cfg)
+      # ... nor remembered from a call made under the other format: a
+      # quantizer of the class is used under channels_last, the format is
+      # switched, and a new quantizer is built and called
+      try:
+        first = quant.build(repo, cls, kw, x_shape=shp,
+                            image_data_format="channels_last")
+        pe_ = first.pe
+        pe_.image_data_format = "channels_first"
+        q2 = pe_.call(pe_.lookup_global(cls, mod), [], dict(kw))
+        pe_.rand_counter = 0
+        out2 = pe_.call(q2, [pe_.x_input()], {})
+      except (ConfigRejected, PyRaise):
+        continue
+      same2 = all(_eqf(Fwd(ph)(out2.term), early.fwd(ph))
+                  for ph in ("infer", "train"))
+      rep.check(same2, rule, unit9, "data-format-remembered-from-earlier-call",
+                "%s, after a quantizer of the class was used under "
+                "channels_last: the new quantizer computes %s, in a process "
+                "that only ever used channels_first %s" % (
+                    cfg, show(Fwd()(out2.term), 160), show(early.fwd(), 160)),
+                loc=pe_.loc_of(out2.term), instance=cfg)
   return n9
 
 
